@@ -92,4 +92,24 @@ theorem dataview_prefix {α} [Inhabited α] (parent : List α) (v : View)
   · have := fwd_rebase parent 0 v.stop 1 (by omega) (by omega) he (by omega)
     simpa using this
 
+/-- `Sequence(SeqDataView).to_rich_dict → _moltype_seq_from_rich_dict` coincides with the stand-alone new-style path
+whenever the view is an unsliced forward prefix (the only states in which `SeqDataView.to_rich_dict` exports the
+right string), hence round-trips there. -/
+theorem dataview_path_prefix {α} [Inhabited α] (parent : List α) (v : View) (hinv : Inv v)
+    (hlen : v.seqLen = parent.length) (hs : v.start = 0) (hc : v.step = 1) :
+    ∃ r, seqRoundtripDataView parent v = .ok r ∧ RebaseObs parent v r ∧
+      (v.start ≠ v.stop → isReversed r.2 = isReversed v) := by
+  obtain ⟨hn, ⟨_, h0, hse, he⟩ | ⟨hneg, _⟩⟩ := id hinv
+  · have hseq : (toRichDataView parent v).seq = (toRich parent v).seq := by
+      rw [dataview_prefix parent v hs hc (by omega) (by omega)]
+      have hns : ¬ v.step < 0 := by omega
+      have hb : richDictBounds v = (0, v.stop) := by simp [richDictBounds, hns, hs]
+      simp only [toRich, realise, hb, hs, hc]
+    have hstep : (toRichDataView parent v).step = (toRich parent v).step := rfl
+    have heq : seqRoundtripDataView parent v = seqRoundtripNew parent v := by
+      simp only [seqRoundtripDataView, seqRoundtripNew, hseq, hstep]
+    rw [heq]
+    exact new_path parent v hinv hlen
+  · omega
+
 end CogentModel.RichDict
